@@ -1,8 +1,8 @@
 (* C14 — property theorems.  Only statements, each closed by [exact], each followed by
    Print Assumptions. *)
 From Coq Require Import ZArith QArith List Bool.
-From Centro Require Import Model.HullFill Spec.MecSpec Spec.FeretSpec Spec.FillSpec
-  Proofs.MecProofs Proofs.FeretProofs Proofs.FillProofs.
+From Centro Require Import Model.Circle Model.HullFill Spec.MecSpec Spec.FeretSpec Spec.FillSpec
+  Proofs.MecProofs Proofs.CircleProofs Proofs.FeretProofs Proofs.FillProofs.
 
 (* Full.  Soundness of the certificate checker that is run on the exact circle reconstructed from
    the implementation's output: the circle contains every pixel centre of S and no circle
@@ -21,6 +21,30 @@ Theorem C14_mec_unique : forall S s1 s2 s3 a1 a2 a3 cx cy R,
   forall ex ey rho, (forall p, In p S -> (d2q p ex ey <= rho)%Q) -> (rho <= R)%Q -> (ex == cx /\ ey == cy)%Q.
 Proof. exact mec_unique. Qed.
 Print Assumptions C14_mec_unique.
+
+(* Full, about the executable model of Chrystal's iteration that the correspondence ties to
+   minimum_enclosing_circle: for every list of hull points, whatever circle the model returns
+   (centre (ny/d, nx/d), squared radius rn/d^2) is never too large — every circle enclosing the
+   points has at least that radius.  (The iteration can only stop on a diameter or on a triangle
+   without obtuse angle, and either is a minimality certificate.) *)
+Theorem C14_chrystal_lower_bound : forall h ny nx d rn,
+  chrystal h = CCircle ny nx d rn ->
+  d <> 0%Z /\
+  forall ex ey rho, (forall p, In p h -> (d2q p ex ey <= rho)%Q) -> (inject_Z rn / inject_Z (d * d) <= rho)%Q.
+Proof. exact chrystal_lower_bound. Qed.
+Print Assumptions C14_chrystal_lower_bound.
+
+(* Partial: "the model's circle is the minimum enclosing circle of the hull points" is proved under
+   the premise that the circle encloses them.  Missing: that Chrystal's iteration as written always
+   terminates (within the model's fuel) in a circle that encloses every hull point — the progress
+   argument of the algorithm.  On every run the premise is checked on the implementation's own
+   output by mec_ok, for the object's full pixel set. *)
+Theorem C14_chrystal_reaches_certificate_partial : forall h ny nx d rn,
+  chrystal h = CCircle ny nx d rn ->
+  Encloses h (inject_Z ny / inject_Z d) (inject_Z nx / inject_Z d) (inject_Z rn / inject_Z (d * d)) ->
+  MEC h (inject_Z ny / inject_Z d) (inject_Z nx / inject_Z d) (inject_Z rn / inject_Z (d * d)).
+Proof. exact chrystal_mec. Qed.
+Print Assumptions C14_chrystal_reaches_certificate_partial.
 
 (* Full.  The brute-force maximum Feret diameter (squared) that the implementation's value is
    compared with is the largest squared distance between two pixels of the object. *)
